@@ -5,6 +5,15 @@ open Bomodel
    R <minor11 0/1> <close 0/1> <protohex> <moves bits|-> <fails bits|-> op op ...
         ops: cl:N  x:K:V  t:K  tv:K:V  s:CODE:TEXT  w:LEN  f        (w: a Write of LEN bytes)
      -> W=<n|ECL|ERR,...> OUT=<len:0/1,...> TR=<ev ev ...>
+   Q <maxbuf> <moves bits|-> <slack> op op ...       the connection write queue (WqAlloc.v)
+        ops: w:LEN:KS  v:L1,L2,...:KS  s:FLEN:REQ:KS  f:KS  c      KS: kernel script, '.'-separated t<k> a i x, or -
+     -> S=<ok|err>/<closed 0/1>/<shape b,f..|->/<left>;...  TR=<ev ev ...>
+   B <maxbody> <slack> op op ...                     BodyReader (BodyAlloc.v)   ops: a:LEN  r:LEN  c
+     -> S=<n|eof|toolong>/<buffers>/<index>/<left>;...  TR=<ev ev ...>     (observation after every op)
+   W <release> <mh> <fh> <zip> <limit> <rlimit> <moves bits|-> <frames> op op ...     WebSocket receive path (WsRecvAlloc.v)
+        frames: ';'-separated  op(d|c|t|b),fin,rsv1,rsvx,lk,mask,plen,neg,reply,clean,infl(o|l|b),ilen,grow   ('-' = none)
+        ops: p:LEN (Parse of the next LEN bytes)   c (CloseAndClean)
+     -> S=<ok|err|closed|toolong>/<cache>/<message>/<closed 0/1>;...  G=<buffers left to the application> TR=<ev ev ...>
    nat is an OCaml int (ExtrOcamlNatInt): ids, indices. N stays a Coq datatype. *)
 
 let rec pos_of_int n = if n = 1 then XH else if n land 1 = 1 then XI (pos_of_int (n lsr 1)) else XO (pos_of_int (n lsr 1))
@@ -50,6 +59,25 @@ let parse_op tok =
   | ["f"] -> HFlush
   | _ -> failwith ("bad op " ^ tok)
 
+let rec z_of_int n = if n = 0 then Z0 else if n > 0 then Zpos (pos_of_int n) else Zneg (pos_of_int (-n))
+let int_of_z = function Z0 -> 0 | Zpos p -> int_of_pos p | Zneg p -> - (int_of_pos p)
+let parse_ks s =
+  if s = "-" || s = "" then [] else
+  List.map (fun t -> match t.[0] with
+    | 't' -> Took (pos_of_int (int_of_string (rest t)))
+    | 'a' -> EAgain | 'i' -> EIntr | 'x' -> EFatal
+    | _ -> failwith ("bad kernel answer " ^ t)) (String.split_on_char '.' s)
+let parse_qop tok =
+  match String.split_on_char ':' tok with
+  | ["w"; l; ks] -> QWrite (n_of_int (int_of_string l), parse_ks ks)
+  | ["v"; ls; ks] ->
+    let ls = if ls = "-" then [] else List.map (fun x -> n_of_int (int_of_string x)) (String.split_on_char ',' ls) in
+    QWritev (ls, parse_ks ks)
+  | ["s"; fl; rq; ks] -> QSendfile (n_of_int (int_of_string fl), n_of_int (int_of_string rq), parse_ks ks)
+  | ["f"; ks] -> QFlush (parse_ks ks)
+  | ["c"] -> QClose
+  | _ -> failwith ("bad queue op " ^ tok)
+
 let nonempty l = List.filter (fun s -> s <> "") l
 
 let () =
@@ -68,6 +96,56 @@ let () =
         let wstr = String.concat "," (List.map (function WOk n -> string_of_int (int_of_n n) | WErrContentLength -> "ECL" | WErr -> "ERR") ws) in
         let ostr = String.concat "," (List.map (fun (n, ok) -> Printf.sprintf "%d:%d" (int_of_n n) (if ok then 1 else 0)) r.al.out) in
         Printf.printf "W=%s OUT=%s TR=%s\n%!" wstr ostr (String.concat " " (List.map show_ev r.al.trace))
+      | "Q" :: mb :: mv :: slack :: ops ->
+        let sl = int_of_string slack in
+        let qops = List.map parse_qop (nonempty ops) in
+        (* every buffer the allocator creates serves a Write / one element of a Writev: two answers each are enough *)
+        let need = List.fold_left (fun a o -> a + (match o with QWrite _ -> 2 | QWritev (ls, _) -> 2 * List.length ls | _ -> 0)) 4 qops in
+        let c = n_of_int sl in
+        let caps = if sl = 0 then [] else List.init need (fun _ -> c) in
+        let (q, obs) = qrun (q0 (z_of_int (int_of_string mb)) (bits mv) caps) qops in
+        let show (((r, cl), sh), lf) =
+          Printf.sprintf "%s/%d/%s/%d" (match r with ROk -> "ok" | RErr -> "err") (if cl then 1 else 0)
+            (if sh = [] then "-" else String.concat "" (List.map (fun b -> if b then "b" else "f") sh)) (int_of_z lf) in
+        Printf.printf "S=%s TR=%s\n%!" (String.concat ";" (List.map show obs))
+          (String.concat " " (List.map show_ev q.qa.trace))
+      | "B" :: mx :: slack :: ops ->
+        let sl = int_of_string slack in
+        let bops = List.map (fun tok -> match String.split_on_char ':' tok with
+          | ["a"; l] -> BAppend (n_of_int (int_of_string l))
+          | ["r"; l] -> BRead (n_of_int (int_of_string l))
+          | ["c"] -> BClose
+          | _ -> failwith ("bad body op " ^ tok)) (nonempty ops) in
+        let c = n_of_int sl in
+        let caps = if sl = 0 then [] else List.init (2 * List.length bops + 4) (fun _ -> c) in
+        (* observations need the intermediate states: run the prefixes step by step *)
+        let b = ref (body0 (n_of_int (int_of_string mx)) caps) in
+        let obs = List.map (fun o ->
+          let (b1, rs) = brun !b [o] in
+          b := b1;
+          let r = match rs with [BOk n] -> string_of_int (int_of_n n) | [BEOF] -> "eof" | [BTooLong] -> "toolong" | _ -> "?" in
+          Printf.sprintf "%s/%d/%d/%d" r (List.length b1.bufs) (int_of_n b1.bindex) (int_of_n b1.bleft)) bops in
+        Printf.printf "S=%s TR=%s\n%!" (String.concat ";" obs) (String.concat " " (List.map show_ev !b.ba.trace))
+      | "W" :: rel :: mhs :: fhs :: zs :: lim :: rlim :: mv :: frs :: ops ->
+        let b s = (s = "1") in
+        let ni s = n_of_int (int_of_string s) in
+        let parse_frame t = match String.split_on_char ',' t with
+          | [op; fin; r1; rx; lk; mask; plen; neg; reply; clean; infl; ilen; grow] ->
+            { f_op = (match op with "d" -> ODataFirst | "c" -> OCont | "t" -> OCtl | _ -> OBad);
+              f_fin = b fin; f_rsv1 = b r1; f_rsvx = b rx; f_lk = ni lk; f_mask = b mask; f_plen = ni plen; f_neg = b neg;
+              f_reply = b reply; f_clean = b clean;
+              f_infl = (match infl with "l" -> ITooLarge | "b" -> IBad | _ -> IOk); f_ilen = ni ilen; f_grow = int_of_string grow }
+          | _ -> failwith ("bad frame " ^ t) in
+        let frames = if frs = "-" then [] else List.map parse_frame (String.split_on_char ';' frs) in
+        let cfg = { wrelease = b rel; wmh = b mhs; wfh = b fhs; wzip = b zs; wlimit = ni lim; wrlimit = ni rlim } in
+        let wops = List.map (fun tok -> match String.split_on_char ':' tok with
+          | ["p"; l] -> WParse (ni l) | ["c"] -> WClose | _ -> failwith ("bad ws op " ^ tok)) (nonempty ops) in
+        let (w, obs) = wrun cfg (w0 (bits mv) frames) wops in
+        let show (((r, cl), ml), closed) =
+          Printf.sprintf "%s/%d/%d/%d" (match r with POk -> "ok" | PErr -> "err" | PClosed -> "closed" | PTooLong -> "toolong")
+            (int_of_n cl) (int_of_n ml) (if closed then 1 else 0) in
+        Printf.printf "S=%s G=%d TR=%s\n%!" (String.concat ";" (List.map show obs)) (List.length w.given)
+          (String.concat " " (List.map show_ev w.wa.trace))
       | _ -> print_endline "BADLINE"
     done
   with End_of_file -> ()
